@@ -20,7 +20,7 @@ From NB Require Import Merge.MergeApplyProofs.
 From NB Require Import Diff.Patch.
 From NB Require Import Gen.MergeFacts.
 From NB Require Import Diff.Wf Diff.StringProofs Diff.C01Proofs Gen.NbConfig.
-From NB Require Import Merge.MergeOnesidedList Merge.MergeOnesidedObj.
+From NB Require Import Merge.MergeOnesidedList Merge.MergeListTotal Merge.MergeOnesidedObj.
 Import ListNotations.
 
 Notation decide O cfg St H :=
@@ -113,27 +113,28 @@ Proof. exact onesided_object_example. Qed.
 Print Assumptions merge_onesided_object_example.
 
 (* the three laws for LIST documents and flat list diffs of ANY length (insert / delete runs of items, e.g. whole cells at a
-   list root): whenever the merge returns, no decision is conflicted and applying the decisions is patch(base, d).  The chunker
-   (section boundaries, split on boundaries, make_chunks) and the chunk switch of _merge_lists are followed step by step. *)
-Theorem merge_onesided_l_flat_list : forall O cfg St H l d decs,
+   list root), totality included: the merge RETURNS (the sanity asserts of make_merge_chunks hold: the first chunk starts at 0, the
+   last one ends at len(base)), no decision is conflicted and applying the decisions is patch(base, d).  The chunker (section
+   boundaries, split on boundaries, make_chunks) and the chunk switch of _merge_lists are followed step by step. *)
+Theorem merge_onesided_l_flat_list : forall O cfg St H l d,
   lst_ok (length l) 0 0 d -> d <> [] ->
-  decide O cfg St H (JArr l) d [] = Ok decs ->
-  no_conf decs /\ apply_decisions (JArr l) decs = patch (pfuel (JArr l) d) (JArr l) d.
-Proof. exact (fun O cfg St H => onesided_flat_list O cfg St H chunks_guard entry_eq_strict conflict_assert_strict). Qed.
+  exists decs, decide O cfg St H (JArr l) d [] = Ok decs
+               /\ no_conf decs /\ apply_decisions (JArr l) decs = patch (pfuel (JArr l) d) (JArr l) d.
+Proof. exact (fun O cfg St H => onesided_flat_list_total O cfg St H chunks_guard entry_eq_strict conflict_assert_strict). Qed.
 Print Assumptions merge_onesided_l_flat_list.
 
-Theorem merge_onesided_r_flat_list : forall O cfg St H l d decs,
+Theorem merge_onesided_r_flat_list : forall O cfg St H l d,
   lst_ok (length l) 0 0 d -> d <> [] ->
-  decide O cfg St H (JArr l) [] d = Ok decs ->
-  no_conf decs /\ apply_decisions (JArr l) decs = patch (pfuel (JArr l) d) (JArr l) d.
-Proof. exact (fun O cfg St H => onesided_remote_flat_list O cfg St H chunks_guard entry_eq_strict conflict_assert_strict). Qed.
+  exists decs, decide O cfg St H (JArr l) [] d = Ok decs
+               /\ no_conf decs /\ apply_decisions (JArr l) decs = patch (pfuel (JArr l) d) (JArr l) d.
+Proof. exact (fun O cfg St H => onesided_remote_flat_list_total O cfg St H chunks_guard entry_eq_strict conflict_assert_strict). Qed.
 Print Assumptions merge_onesided_r_flat_list.
 
-Theorem merge_agree_flat_list : forall O cfg St H l d decs,
+Theorem merge_agree_flat_list : forall O cfg St H l d,
   lst_ok (length l) 0 0 d -> d <> [] ->
-  decide O cfg St H (JArr l) d d = Ok decs ->
-  no_conf decs /\ apply_decisions (JArr l) decs = patch (pfuel (JArr l) d) (JArr l) d.
-Proof. exact (fun O cfg St H => agree_flat_list O cfg St H chunks_guard entry_eq_strict conflict_assert_strict). Qed.
+  exists decs, decide O cfg St H (JArr l) d d = Ok decs
+               /\ no_conf decs /\ apply_decisions (JArr l) decs = patch (pfuel (JArr l) d) (JArr l) d.
+Proof. exact (fun O cfg St H => agree_flat_list_total O cfg St H chunks_guard entry_eq_strict conflict_assert_strict). Qed.
 Print Assumptions merge_agree_flat_list.
 
 Theorem merge_flat_list_example :
